@@ -144,8 +144,8 @@ class C05(Spec):
     def generate(self, rng, tier):
         hs = []
         quick = tier == "quick"
-        lgks = [4, 5, 6, 7, 8] if quick else [4, 5, 6, 7, 8, 9, 10, 11, 12]
-        nh = 100 if quick else 600
+        lgks = [4, 5, 6, 7, 8] if quick else [4, 5, 6, 7, 8, 9, 10]
+        nh = 100 if quick else 500
         for i in range(nh):
             h = []
             lgk = lgks[i % len(lgks)]
@@ -188,6 +188,18 @@ class C05(Spec):
                 h.append("updr 0 %d %d" % (base + n, step)); n += step
                 h.append("rt 0 90"); h.append("ser 0")
                 h.append("updr 0 %d 3" % (base + n)); h.append("updr 90 %d 3" % (base + n)); n += 3
+            hs.append(h)
+        # large sketches (thorough): few, big range updates, serialization at every stage
+        for lgk in ([] if quick else [11, 12, 11, 12]):
+            h = ["new 0 %d 9001" % lgk]
+            k = 1 << lgk
+            n = 0
+            base = rng.randrange(1 << 40)
+            goal = int(k * 2 ** (rng.choice([4.2, 6.6]) - 0.9))
+            while n < goal:
+                step = max(k // 16, n // 5)
+                h.append("updr 0 %d %d" % (base + n, step)); n += step
+                h.append("rt 0 90"); h.append("ser 0")
             hs.append(h)
         hs += self._union_histories(rng, tier)
         # round trips of empty and nearly empty sketches, then the same updates on original and copy
